@@ -1,6 +1,8 @@
 import ExponaxModel.Proofs.Aliasing
 import ExponaxModel.Proofs.CrossProduct
 import ExponaxModel.Proofs.LayoutLemmas
+import ExponaxModel.Proofs.AliasND
+import ExponaxModel.Generated.Misc
 /-
 C03 — nonlinear terms equal the alias-free projection of the documented operator.
 
@@ -182,12 +184,116 @@ theorem C03_cross_product {R : Type} [CommRing R] (a1 a2 a3 b1 b2 b3 : R) :
     Gen.Misc.cross_product_3d (a1, a2, a3) (b1, b2, b3) = (a2 * b3 - a3 * b2, a3 * b1 - a1 * b3, a1 * b2 - a2 * b1) :=
   Cross.cross_formula a1 a2 a3 b1 b2 b3
 
+/-! ### every dimension `D ≥ 1` (`Proofs/AliasND*.lean`): full spectrum `dftV`, box `|k_d| ≤ K` on every axis
+
+`AliasND.linConv D N K F G k = N^{-D} Σ_{p ∈ box} F_p G_{k−p}` (truncated) is the LINEAR convolution: no wrapped-around
+term.  `AliasND.dftV D N x k` is the D-dimensional DFT sum of the real state at the wavenumber vector `k`
+(`rfftn_eq_dftV`: it is the stored coefficient at `k = kvec h`; Hermitian and `N`-periodic). -/
+
+/-- n-D pseudo-spectral product of two band-limited real fields under `3K < N`: exactly the sum over `p + q = k` inside
+    the box, for every retained stored mode -/
+theorem C03_product_alias_free_nd (D N : ℕ) (hD : 0 < D) (hN : 0 < N) (K : ℤ) (hK : 3 * K < N) (f g : Array ℂ)
+    (hf : AliasND.IsRealND D N f) (hg : AliasND.IsRealND D N g) (bf : AliasND.StoredBandLimited D N K f)
+    (bg : AliasND.StoredBandLimited D N K g) (h : ℕ) (hh : h < numModes D N)
+    (hk : ∀ d : Fin D, |AliasND.kvec D N h d| ≤ K) :
+    (Transform.rfftnM D N (Transform.tab (N ^ D) fun j => f.getD j 0 * g.getD j 0)).getD h 0 =
+      1 / ((N ^ D : ℕ) : ℂ) * ∑ pq ∈ AliasND.box D K ×ˢ AliasND.box D K with pq.1 + pq.2 = AliasND.kvec D N h,
+        AliasND.dftV D N f pq.1 * AliasND.dftV D N g pq.2 :=
+  AliasND.rfftn_mul_no_alias_pairs D N hD hN K hK f g hf hg bf bg h hh hk
+
+/-- the model's `ifft(mask · û)` is the band truncation, every D: transforming back gives `mask · û` -/
+theorem C03_truncation_nd (c : Cfg ℂ) (hD : 0 < c.D) (hq : c.fq ≠ 0) (hN : 0 < c.N) (hK : 2 * Kc c < (c.N : ℤ))
+    (x : Array ℂ) (hx : AliasND.IsRealND c.D c.N x) (h : ℕ) (hh : h < numModes c.D c.N) :
+    (Transform.rfftnM c.D c.N (nifft c (Transform.rfftnM c.D c.N x))).getD h 0
+      = mask c h * (Transform.rfftnM c.D c.N x).getD h 0 := AliasND.rfftn_nifft_rfftn c hD hq hN hK x hx h hh
+
+/-- polynomial term, degree ≤ 2 with the 2/3 rule, every D, every N -/
+theorem C03_polynomial_quadratic_nd (c : Cfg ℂ) (hD : 0 < c.D) (hp : c.fp = 2) (hq : c.fq = 3) (hN : 0 < c.N)
+    (c0 c1 c2 : ℂ) (x : Array ℂ) (hx : AliasND.IsRealND c.D c.N x) (h : ℕ) (hh : h < numModes c.D c.N) :
+    (mask c h = 1 → at2 (polynomial c 1 [c0, c1, c2] #[Transform.rfftnM c.D c.N x]) 0 h =
+        (c0 * if h = 0 then ((c.N ^ c.D : ℕ) : ℂ) else 0) + c1 * (Transform.rfftnM c.D c.N x).getD h 0 +
+          c2 * AliasND.linConv c.D c.N (Kc c) (AliasND.dftV c.D c.N x) (AliasND.dftV c.D c.N x)
+            (AliasND.kvec c.D c.N h)) ∧
+      (mask c h = 0 → at2 (polynomial c 1 [c0, c1, c2] #[Transform.rfftnM c.D c.N x]) 0 h = 0) :=
+  AliasND.polynomial_quadratic_alias_free_nd_two_thirds c hD hp hq hN c0 c1 c2 x hx h hh
+
+/-- polynomial term, degree ≤ 3 under `4K < N` (the 1/2 rule), every D -/
+theorem C03_polynomial_cubic_nd (c : Cfg ℂ) (hD : 0 < c.D) (hq : c.fq ≠ 0) (hK : 4 * Kc c < (c.N : ℤ)) (hN : 0 < c.N)
+    (c0 c1 c2 c3 : ℂ) (x : Array ℂ) (hx : AliasND.IsRealND c.D c.N x) (h : ℕ) (hh : h < numModes c.D c.N) :
+    (mask c h = 1 → at2 (polynomial c 1 [c0, c1, c2, c3] #[Transform.rfftnM c.D c.N x]) 0 h =
+        (c0 * if h = 0 then ((c.N ^ c.D : ℕ) : ℂ) else 0) + c1 * (Transform.rfftnM c.D c.N x).getD h 0 +
+          c2 * AliasND.linConv c.D c.N (Kc c) (AliasND.dftV c.D c.N x) (AliasND.dftV c.D c.N x)
+            (AliasND.kvec c.D c.N h) +
+          c3 * AliasND.linConv3 c.D c.N (Kc c) (AliasND.dftV c.D c.N x) (AliasND.dftV c.D c.N x)
+            (AliasND.dftV c.D c.N x) (AliasND.kvec c.D c.N h)) ∧
+      (mask c h = 0 → at2 (polynomial c 1 [c0, c1, c2, c3] #[Transform.rfftnM c.D c.N x]) 0 h = 0) :=
+  AliasND.polynomial_cubic_alias_free_nd c hD hq hK hN c0 c1 c2 c3 x hx h hh
+
+/-- conservative multi-channel convection `½ ∂_j(u_i u_j)` (Burgers, KdV, KS-conservative in D dimensions), any channel
+    count, every D: the alias-free convolution form on retained modes, 0 on dropped modes -/
+theorem C03_convection_conservative_nd (c : Cfg ℂ) (hD : 0 < c.D) (hq : c.fq ≠ 0) (hK : 3 * Kc c < (c.N : ℤ))
+    (hN : 0 < c.N) (C : ℕ) (scale : ℂ) (uh : MC ℂ) (xs : ℕ → Array ℂ)
+    (hx : ∀ ch < C, AliasND.IsRealND c.D c.N (xs ch))
+    (hu : ∀ ch < C, uh.getD ch #[] = Transform.rfftnM c.D c.N (xs ch)) (i : ℕ) (hi : i < C) (h : ℕ)
+    (hh : h < numModes c.D c.N) :
+    (mask c h = 1 → at2 (convection c C scale false true uh) i h =
+        -scale * (1 / 2 * ∑ j ∈ Finset.range C, deriv c j h *
+          AliasND.linConv c.D c.N (Kc c) (AliasND.dftV c.D c.N (xs j)) (AliasND.dftV c.D c.N (xs i))
+            (AliasND.kvec c.D c.N h))) ∧
+      (mask c h = 0 → at2 (convection c C scale false true uh) i h = 0) :=
+  AliasND.convection_multi_conservative_alias_free_nd c hD hq hK hN C scale uh xs hx hu i hi h hh
+
+/-- single-channel conservative convection and the Cahn–Hilliard cubic term, every D -/
+theorem C03_single_channel_and_cahn_hilliard_nd (c : Cfg ℂ) (hD : 0 < c.D) (hq : c.fq ≠ 0) (hN : 0 < c.N)
+    (scale : ℂ) (x : Array ℂ) (hx : AliasND.IsRealND c.D c.N x) (h : ℕ) (hh : h < numModes c.D c.N) :
+    (3 * Kc c < (c.N : ℤ) → mask c h = 1 →
+      at2 (convection c 1 scale true true #[Transform.rfftnM c.D c.N x]) 0 h =
+        -scale * ((1 / 2 * ∑ d ∈ Finset.range c.D, deriv c d h) *
+          AliasND.linConv c.D c.N (Kc c) (AliasND.dftV c.D c.N x) (AliasND.dftV c.D c.N x)
+            (AliasND.kvec c.D c.N h))) ∧
+    (4 * Kc c < (c.N : ℤ) → mask c h = 1 →
+      at2 (cahnHilliard c scale #[Transform.rfftnM c.D c.N x]) 0 h =
+        laplace c 2 h * AliasND.linConv3 c.D c.N (Kc c) (AliasND.dftV c.D c.N x) (AliasND.dftV c.D c.N x)
+          (AliasND.dftV c.D c.N x) (AliasND.kvec c.D c.N h) * scale) := by
+  refine ⟨fun hK hm => ?_, fun hK hm => ?_⟩
+  · have := AliasND.convection_single_conservative_alias_free_nd c hD hq hK hN 1 scale
+      #[Transform.rfftnM c.D c.N x] (fun _ => x) (fun _ _ => hx) (fun ch hch => by
+        have : ch = 0 := by omega
+        subst this; rfl) 0 (by omega) h hh
+    exact this.1 hm
+  · exact (AliasND.cahnHilliard_alias_free_nd c hD hq hK hN scale x hx h hh).1 hm
+
+/-! ### the regenerated cut-off arithmetic -/
+
+/-- the cut-off expression regenerated from `BaseNonlinearFun.__init__` is `frac·(N//2) − 1` … -/
+theorem C03_generated_cutoff (N : ℕ) (f : ℚ) :
+    Gen.Misc.dealias_cutoff N f = f * ((N / 2 : ℕ) : ℚ) - 1 := by
+  simp [Gen.Misc.dealias_cutoff, lit]
+  left
+  show ((((N : ℤ) / 2 : ℤ)) : ℚ) = ((N / 2 : ℕ) : ℚ)
+  have : ((N : ℤ) / 2) = ((N / 2 : ℕ) : ℤ) := by norm_cast
+  rw [this]; norm_cast
+
+/-- … and the retained band of the model is its integer part (rational evaluation; the binary64 evaluation of the
+    same regenerated expression is what the check drives the model with, see `C03_effective_cutoff`) -/
+theorem C03_generated_cutoff_floor (c : Cfg ℂ) (hq : c.fq ≠ 0) :
+    ⌊Gen.Misc.dealias_cutoff c.N ((c.fp : ℚ) / (c.fq : ℚ))⌋ = Kc c := by
+  rw [C03_generated_cutoff]
+  have hq' : (c.fq : ℚ) ≠ 0 := by exact_mod_cast hq
+  have h1 : (c.fp : ℚ) / (c.fq : ℚ) * ((c.N / 2 : ℕ) : ℚ) - 1
+      = (((c.fp : ℤ) * ((c.N / 2 : ℕ) : ℤ) - (c.fq : ℤ) : ℤ) : ℚ) / ((c.fq : ℕ) : ℚ) := by
+    rw [Int.cast_sub, Int.cast_mul, Int.cast_natCast, Int.cast_natCast, Int.cast_natCast]
+    field_simp
+  rw [h1, Rat.floor_intCast_div_natCast]
+  rfl
+
 /-
-Not proved in Lean: the D = 2, 3 and multi-channel versions of the per-term statements (the aliasing argument
-is axis-wise the same; the model terms for D = 2, 3 are tied to the implementation and to the convolution form
-only by the correspondence / the 4x-oversampled oracle), and the per-term statement for `vorticity2d`,
-`projected3d`, Gray-Scott beyond "zero outside the band".
+Not proved in Lean: the per-term alias-free statement for the non-conservative convection, gradient norm,
+`vorticity2d`, `projected3d` and Gray-Scott in D ≥ 2 (they need the truncation lemma for Hermitian spectra of the form
+`(i s k_d)·x̂`); those model terms are tied to the implementation by the correspondence and to the documented operator
+by the 4x-oversampled oracle; "zero outside the band" is proved for all of them (C03_zero_outside_band).
 -/
+
 
 example : ∃ c : Cfg ℂ, c.D = 1 ∧ c.fp = 2 ∧ c.fq = 3 ∧ 0 < c.N ∧ mask c 3 = 1 :=
   ⟨{ D := 1, N := 12, s := 1, fp := 2, fq := 3 }, rfl, rfl, rfl, by decide, by
